@@ -23,6 +23,7 @@ def goenv():
     e["GOPROXY"] = "off"
     e.pop("GOSUMDB", None)  # GOSUMDB=off breaks the cached-toolchain switch (DESIGN §7)
     e.setdefault("GOCACHE", os.path.join(BUILD, "gocache"))
+    e["VERIF_REPO"] = REPO
     return e
 
 
@@ -106,20 +107,17 @@ def grep_audit():
 
 
 def run_extract(log):
-    """regenerate Generated/*.lean + facts.json from /repo's working tree (write-if-changed)"""
-    src = os.path.join(ROOT, "extract")
-    if not os.path.exists(os.path.join(src, "main.go")):
-        return True, {}
-    rc, out = sh(["go", "build", "-o", EXTRACT_BIN, "."], cwd=src, env=goenv(), timeout=600)
-    log.append(("extract-build", rc, out[-4000:]))
-    if rc != 0:
-        return False, {}
+    """regenerate Generated/*.lean + facts.json from /repo's working tree (write-if-changed).
+    The fact generator is part of the harness binary (`harness facts`): it reflects over the real types
+    and parses the real sources, so the harness must have been built against the current tree first."""
     gen_dir = os.path.join(LEAN, "BurrowVerif", "Generated")
     tmp = os.path.join(BUILD, "generated.tmp")
     shutil.rmtree(tmp, ignore_errors=True)
     os.makedirs(tmp)
-    rc, out = sh([EXTRACT_BIN, "-repo", REPO, "-out", tmp], env=goenv(), timeout=600)
-    log.append(("extract-run", rc, out[-4000:]))
+    env = goenv()
+    env["VERIF_REPO"] = REPO
+    rc, out = sh([HARNESS_BIN, "facts", "-out", tmp], env=env, timeout=600)
+    log.append(("facts", rc, out[-4000:]))
     if rc != 0:
         return False, {}
     digests = {}
@@ -316,6 +314,13 @@ def rerun_case(stream, header, op_lines, keys, tag, want=None):
     impl, model, resolved = read_lines(out), read_lines(mp), read_lines(res)
     differs = len(impl) != len(model) or any(
         (not a.startswith("#")) and line_diff(a, b, keys) for a, b in zip(impl, model))
+    if want is not None and len(want) == 1 and want[0].startswith("#specviol:"):
+        # a spec violation: the model flags the line as deviating from the property's letter and the
+        # implementation agrees with the model on it
+        tag = want[0][len("#specviol:"):]
+        tainted = any(a.endswith(" tick") or a == "tick" for a in impl)
+        hit = any(parse_out(b).get("~specviol") == tag and not line_diff(a, b, keys) for a, b in zip(impl, model))
+        return (hit and not tainted), impl, model, resolved
     if want is not None and differs:
         # while shrinking, keep only candidates that fail the same way (same differing fields on some
         # line) and that both sides still accept as well-formed ops
@@ -452,9 +457,9 @@ def run_stream(prop_id, cfg, scfg, seed, tier, log, stats):
                 shrunk = body
                 bad, simpl, smodel, sres = True, ["#crash rc=%d: %s" % (rc, txt[-1500:])], [], []
             elif dkeys[0].startswith("#specviol:"):
-                shrunk = body
-                _, simpl, smodel, sres = rerun_case(stream, hdr, body, keys, tag)
-                bad = any("~specviol=" in m for m in smodel)
+                bad0, *_ = rerun_case(stream, hdr, body, keys, tag, want=dkeys)
+                shrunk = ddmin(stream, hdr, body, keys, tag, want=dkeys) if bad0 and len(body) > 1 else body
+                bad, simpl, smodel, sres = rerun_case(stream, hdr, shrunk, keys, tag, want=dkeys)
             else:
                 bad0, *_ = rerun_case(stream, hdr, body, keys, tag)
                 shrunk = ddmin(stream, hdr, body, keys, tag, want=dkeys) if bad0 and len(body) > 1 else body
@@ -509,13 +514,13 @@ def setup():
     log = []
     ok = True
     with Lock("build"):
-        e_ok, _ = run_extract(log)
+        h_ok, _ = build_harness(log)
+        ok &= h_ok
+        e_ok, _ = run_extract(log) if h_ok else (False, {})
         ok &= e_ok
         mods = sorted({m for c in PROPS.values() if c.get("ready", True) for m in c["lean_modules"]})
         l_ok, out = lake_build(mods + ["bvdriver"], log)
         ok &= l_ok
-        h_ok, _ = build_harness(log)
-        ok &= h_ok
     for name, rc, out in log:
         print(f"--- {name}: rc={rc}")
         if rc != 0:
@@ -532,7 +537,10 @@ def check(prop_id, tier, seed):
     stats = {}
     targets = cfg["lean_modules"] + ["bvdriver"]
     with Lock("build"):
-        e_ok, gen_digests = run_extract(log)
+        h_ok, h_out = build_harness(log)
+        # facts come from the harness binary; if it no longer builds the committed Generated files stay
+        # in place and the broken build is itself reported below
+        e_ok, gen_digests = run_extract(log) if h_ok else (True, {})
         lean_ok, lean_out = lake_build(targets, log, clean=False)
         if tier == "thorough" and lean_ok and cfg.get("leanchecker", True):
             for m in cfg["lean_modules"]:
@@ -551,7 +559,6 @@ def check(prop_id, tier, seed):
                 except OSError:
                     pass
         grep_hits = grep_audit()
-        h_ok, h_out = build_harness(log)
     broken = []
     if not e_ok:
         broken.append("extractor failed on /repo's working tree (tie F1..F10 broken): " + log[-1][2][-1500:] if log else "")
@@ -662,16 +669,19 @@ def replay(prop_id, path):
     r = json.load(open(path))
     log = []
     with Lock("build"):
-        run_extract(log)
-        lake_build(cfg["lean_modules"] + ["bvdriver"], log)
         h_ok, h_out = build_harness(log)
+        if h_ok:
+            run_extract(log)
+        lake_build(cfg["lean_modules"] + ["bvdriver"], log)
     if r.get("kind") != "failing-input":
         ok = all(rc == 0 for _, rc, _ in log)
         print(json.dumps(r.get("no_longer_checks"), indent=1))
         print("obligations now", "check" if ok else "still broken")
         return 0 if ok else 1
     scfg = next(s for s in cfg["streams"] if s["name"] == r["stream"])
-    bad, impl, model, resolved = rerun_case(r["stream"], r.get("case", "#case 0"), r["ops"], scfg.get("keys"), prop_id + "-replay")
+    dk = r.get("differing_keys", [])
+    want = dk if len(dk) == 1 and dk[0].startswith("#specviol:") else None
+    bad, impl, model, resolved = rerun_case(r["stream"], r.get("case", "#case 0"), r["ops"], scfg.get("keys"), prop_id + "-replay", want=want)
     for a, b, c in zip(resolved, impl, model + [""] * len(impl)):
         mark = "  " if a.startswith("#") or not line_diff(b, c, scfg.get("keys")) else "!!"
         print(f"{mark} op:    {a}\n{mark} impl:  {b}\n{mark} model: {c}")
